@@ -110,7 +110,7 @@ Definition ref_sercfg := ref_sercfg_rt RTIsNone.
 
 (** The two 'Illegal newline' tests of Keyvalues.parse ('\n' in s or '\r' in s), replacement tests guarded. *)
 Definition ref_pcfg : parsecfg :=
-  {| p_key_break := BTChars [10; 13]; p_value_break := BTChars [10; 13]; p_replace_guard := true |}.
+  {| p_key_break := BTChars [10; 13]; p_value_break := BTChars [10; 13]; p_replace_guard := true; p_single_block_guard := true |}.
 Lemma ref_pcfg_ok : pcfg_ok ref_pcfg = true.
 Proof. vm_compute. reflexivity. Qed.
 
@@ -170,7 +170,7 @@ Proof. split; vm_compute; reflexivity. Qed.
 (** Seeded fault class "more characters count as a line break in a key": a parser that also rejects a
     vertical tab refuses text the writer produced for a legal name; [pcfg_ok] rejects that test. *)
 Definition wide_break_pcfg : parsecfg :=
-  {| p_key_break := BTChars [10; 13; 11]; p_value_break := BTChars [10; 13]; p_replace_guard := true |}.
+  {| p_key_break := BTChars [10; 13; 11]; p_value_break := BTChars [10; 13]; p_replace_guard := true; p_single_block_guard := true |}.
 Lemma wide_key_break_rejected : pcfg_ok wide_break_pcfg = false.
 Proof. vm_compute. reflexivity. Qed.
 Lemma wide_key_break_refuted :
